@@ -106,7 +106,7 @@ func NewPositionRange(lines []string, val *yaml.Node, minColumn int) (offsets Po
 
 	for lineIndex <= len(lines) {
 		// Append new line but only if we already have any tokens.
-		if len(offsets) > 0 {
+		if len(offsets) > 0 || needIndex > 0 {
 			offsets = appendPosition(offsets, lineIndex-1, len(lines[lineIndex-2])+1)
 		}
 
